@@ -195,6 +195,12 @@ impl L2Check {
                 k.w_stmt[13] = 5;
                 k.w_stmt[8] = 5;
                 k.w_stmt[1] = 10;
+                if rng.chance(0.2) {
+                    // statements failing over data that already sits in a compacted segment
+                    k.n_ops = rng.range(4, 12) as usize;
+                    k.compact_at = Some(rng.range(1, k.n_ops as u64 - 2) as usize);
+                    k.reopen = false;
+                }
             }
             "C14" => {
                 k.p_txn = *rng.pick(&[0.2, 0.6]);
@@ -215,6 +221,11 @@ impl L2Check {
                 k.p_txn = 0.8;
                 k.max_txn_stmts = rng.range(2, 6) as usize;
                 k.w_stmt[13] = 0;
+                if rng.chance(0.2) {
+                    k.n_ops = rng.range(4, 12) as usize;
+                    k.compact_at = Some(rng.range(1, k.n_ops as u64 - 2) as usize);
+                    k.reopen = false;
+                }
             }
         }
         k
